@@ -524,13 +524,8 @@ func (c Case) hasKind(k string) bool {
 func (c Case) inputs() (pts []kit.Pt, batches []kit.Bt) {
 	t := t0
 	open := map[int]int{}
-	strict := c.hasKind("derivative") // a derivative over zero elapsed time is left open by the docs
 	for i, p := range c.Pts {
-		gap := p.Gap
-		if strict && gap < 2 {
-			gap = sec
-		}
-		t += gap
+		t += p.Gap
 		fields := map[string]kit.FV{"n": kit.I(int64(i))}
 		for k, v := range p.F {
 			fields[k] = v
@@ -1209,7 +1204,7 @@ var assumptions = []string{
 	"lambdas come from a small typed family over fields i:int f:float s:string b:bool x:int|float mi:int-or-missing and the tag dc; AND/OR operands never reference a possibly-missing field (C04 covers that interplay)",
 	"an evaluation error (missing field, int/float mismatch in arithmetic, non-string tag result, kept field that does not exist) drops that point and nothing else",
 	"eval: result names never collide with existing fields; keep() is not combined with tags() (docs and code disagree on whether the tag-converted result also stays a field)",
-	"derivative: timestamps are strictly increasing when the pipeline contains a derivative (zero elapsed time is left open by the docs); float results compared with relative tolerance 1e-12",
+	"derivative: a point with zero elapsed time since its predecessor yields no value (division by zero) but is the predecessor of the next point; float results compared with relative tolerance 1e-12",
 	"batch edges: sample, groupBy and tag defaults/deletes are not generated (their per-batch meaning is not documented); derivative, changeDetect, stateCount and stateDuration start afresh with every batch",
 	"sample(N) keeps the 1st, N+1st, ... point of a group (the phase the implementation uses; 'keep every N-th point')",
 	"default() treats an empty tag value like a missing tag",
